@@ -44,6 +44,14 @@ CHECKS = {
    technique="bounded exhaustive enumeration of operation programs on the real database for every assignment function and filter, with a per-key original/filtered automaton as oracle",
    text="For every assignment function over keyspace names {x,y} and deterministic filters decided from the key (keep / remove / replace / both), every program up to the stated depth over writes, batches, rotation, every queued worker message (flush and compaction), major compaction and reopen with the same assigner runs on the real code (also with key-value separation); after every step each key must be in its original or its filtered form, stay filtered once observed filtered until rewritten, be filtered after a major compaction that covered it, and keys with verdict keep or in unassigned keyspaces must equal the plain model; scans and point reads agree.",
    note="Verdicts Keep/Remove/ReplaceValue only. One genuine defect (a removed item is replayed from the journal after reopen) is listed in known_findings.txt."),
+ "C11": dict(level="model_checking", engine="E1-seqcheck", design="§3, §6 C11",
+   technique="bounded exhaustive enumeration of pre-reopen histories on the real database; after each history the oracle reopens 1-3 times and drives a superseding suffix, comparing every read method with a BTreeMap model and checking the seqno clause",
+   text="Every program up to the stated depth over inserts, removes, batches, clear, ingestion, rotation, every queued worker message, journal rotation, major compaction and keyspace create/delete, from the empty database and from prepared states (last level + L0 + memtable, tombstone over value, two sealed journals with a lagging keyspace, meta keyspace holding the highest seqnos), is followed by 1-3 reopen cycles; after each reopen the next seqno must exceed every seqno in every keyspace and journal record on disk, a fresh snapshot must equal the handles' view, overwrites must replace and removes hide recovered data through every read method, new snapshots must show recovered plus new data, and created/deleted keyspaces must stay so across a final reopen.",
+   note="The model is re-synchronised after each reopen (fidelity of the reopen itself is C04's); crash images get the same superseding suffix in C02."),
+ "C16": dict(level="model_checking", engine="E1-optionsweep", design="§6 C16",
+   technique="exhaustive enumeration of a finite option-value domain (defaults, every single value, every pair of values of different options) on the real database with create / reopen / reopen-with-other-options cycles",
+   text="For every single value and every pair of values of a boundary-value domain per option (policy vectors of length 1,2,3,7,255, memtable sizes, flags, Leveled and FIFO parameters, blob options) a keyspace is created on the real database, then reopened three times while being opened with maximally different options; every option field, read back through the doc-hidden config, a cfg-gated accessor for the crate-private scalars, the strategy's name and encoded config and float bit patterns, must equal the creation values; max_memtable_size is cross-checked behaviourally.",
+   note="Pairs, not all combinations. Exhaustive over the stated finite domain."),
 }
 
 NOT_YET = {
